@@ -187,7 +187,9 @@ class LasZipVlr(BaseKnownVLR):
 
     @classmethod
     def from_raw(cls, raw_vlr):
-        return cls(raw_vlr.record_data)
+        vlr = cls(raw_vlr.record_data)
+        vlr._description = raw_vlr.description
+        return vlr
 
 
 class ExtraBytesStruct(ctypes.LittleEndianStructure):
